@@ -54,4 +54,8 @@ def callOpt {α : Type} (f : Option (α → R Unit)) (x : α) : R Unit :=
   | some g => g x
   | none => .error "nil-func-call-panic"
 
+/-- `append(l, x)` read functionally (the translator only emits it for slices that own their backing array, or for
+    functions whose theorems concern the returned value only) -/
+def append {α : Type} (l : List α) (x : α) : List α := l ++ [x]
+
 end Go
